@@ -311,8 +311,12 @@ func (store ItemVarStore) GetDelta(index VariationStoreIndex, coords []Coord) fl
 // Evaluate returns the scalar factor of the region
 func (vr VariationRegion) Evaluate(coords []Coord) float32 {
 	v := float32(1)
-	for axis, coord := range coords {
-		factor := vr.RegionAxes[axis].evaluate(coord)
+	for axis, reg := range vr.RegionAxes {
+		var coord Coord // default position if the axis is missing from [coords]
+		if axis < len(coords) {
+			coord = coords[axis]
+		}
+		factor := reg.evaluate(coord)
 		v *= factor
 	}
 	return v
